@@ -170,10 +170,42 @@ theorem blocksW_step (r0 : XRow) (rs : List XRow) (h0 : r0.2.length = L) (fw cur
   rw [rowLine_next strict line block cur r0 (by rw [h0]; exact hcl)]
   simp [List.append_assoc]
 
-/-- the text inside the block at column `cur`, after the blanks of its first row -/
-def inBlock (r0 : XRow) (rs : List XRow) (fw cur : Nat) : Seq :=
+/-- what may follow an alignment in a stream: nothing, or the three blanks of the next header line -/
+def Tail (T : Seq) : Prop := T = [] ∨ ∃ d R, T = SP :: SP :: SP :: d :: R ∧ isWS d = false ∧ d ≠ 0
+
+/-- token and state that `afterBlock` returns after the last block, in front of `T` -/
+def endSt (T : Seq) : Tok × St :=
+  match T with
+  | [] => (.eof, ⟨[], .eof, false⟩)
+  | _ => (.ws, ⟨T.drop 3, .ws, false⟩)
+
+omit hl hb hL in
+/-- after the last block: the end of the file, or the blanks before the next header -/
+theorem afterBlock_tail (lenseq : Int) (rows : List XRow) (h : lenseq = firstLen rows) (T : Seq) (hT : Tail T)
+    (l : Tok) : afterBlock lenseq rows ⟨T, l, false⟩ = .ok (endSt T) := by
+  cases hT with
+  | inl h0 => subst h0; exact afterBlock_eof lenseq rows h l
+  | inr h1 =>
+    obtain ⟨d, R, rfl, hd, hd0⟩ := h1
+    have hs : scan (SP :: SP :: SP :: d :: R) = some (Tok.ws, d :: R) := by
+      have := scan_ws 2 d hd hd0 R
+      simpa [List.replicate] using this
+    unfold afterBlock scanWithEOL
+    simp only [st_scan _ _ _ _ hs, bind, Except.bind, pure, Except.pure]
+    simp [h, endSt]
+
+omit hl hb hL in
+/-- the block loop stops once the declared length is reached -/
+theorem blocks_stop (lenseq : Int) (rows : List XRow) (h : lenseq = firstLen rows) (fp : Nat) (t : Tok) (s : St) :
+    blocks lenseq (fp + 1) t s rows = .ok (rows, s) := by
+  rw [blocks]
+  simp [h, pure, Except.pure]
+
+/-- the text inside the block at column `cur`, after the blanks of its first row, up to the end of the
+alignment, followed by `T` -/
+def inBlock (r0 : XRow) (rs : List XRow) (fw cur : Nat) (T : Seq) : Seq :=
   lineText block (seg line cur r0) ++ (rs.flatMap (rowLine strict false line block cur) ++
-    blocksW strict line block L (r0 :: rs) fw (cur + line))
+    (blocksW strict line block L (r0 :: rs) fw (cur + line) ++ T))
 
 omit hl hb hL in
 theorem take_all (rows : List XRow) (hlen : ∀ r ∈ rows, r.2.length = L) (c : Nat) (h : L ≤ c) :
@@ -185,12 +217,12 @@ theorem take_all (rows : List XRow) (hlen : ∀ r ∈ rows, r.2.length = L) (c :
   rw [List.map_congr_left this, List.map_id]
 
 omit hL in
-/-- **the block loop**: from inside any following block to the end of the file -/
-theorem blocks_loop (r0 : XRow) (rs : List XRow) (hok : ∀ r ∈ r0 :: rs, RowOk strict L r) :
+/-- **the block loop**: from inside any following block to the end of the alignment -/
+theorem blocks_loop (r0 : XRow) (rs : List XRow) (hok : ∀ r ∈ r0 :: rs, RowOk strict L r) (T : Seq) (hT : Tail T) :
     ∀ (fp cur fw : Nat), 0 < cur → cur < L → L ≤ cur + fw + 1 →
-    (inBlock strict line block L r0 rs fw cur).length + 2 ≤ fp →
-    blocks (L : Int) fp .ws ⟨inBlock strict line block L r0 rs fw cur, .ws, true⟩
-        ((r0 :: rs).map (fun r => (r.1, r.2.take cur))) = .ok (r0 :: rs, ⟨[], .eof, false⟩) := by
+    (inBlock strict line block L r0 rs fw cur T).length + 2 ≤ fp →
+    blocks (L : Int) fp .ws ⟨inBlock strict line block L r0 rs fw cur T, .ws, true⟩
+        ((r0 :: rs).map (fun r => (r.1, r.2.take cur))) = .ok (r0 :: rs, (endSt T).2) := by
   intro fp
   induction fp with
   | zero => intro cur fw _ _ _ h; omega
@@ -205,33 +237,38 @@ theorem blocks_loop (r0 : XRow) (rs : List XRow) (hok : ∀ r ∈ r0 :: rs, RowO
     rw [blocks]
     simp only [hcond, Bool.and_true, reduceCtorEq, bne_iff_ne, ne_eq, not_false_eq_true, if_true]
     have hnb := next_rows strict line block L hl hb cur hcl r0 rs hok
-      (blocksW strict line block L (r0 :: rs) fw (cur + line))
-      ⟨inBlock strict line block L r0 rs fw cur, .ws, true⟩ (st_scan_pushed _ _)
+      (blocksW strict line block L (r0 :: rs) fw (cur + line) ++ T)
+      ⟨inBlock strict line block L r0 rs fw cur T, .ws, true⟩ (st_scan_pushed _ _)
     simp only [bind, Except.bind, hnb]
     by_cases hend : L ≤ cur + line
-    · rw [blocksW_done strict line block L _ fw (cur + line) hend]
-      rw [afterBlock_eof _ _ (by rw [hfl, Nat.min_eq_right hend])]
+    · rw [blocksW_done strict line block L _ fw (cur + line) hend, List.nil_append]
+      rw [afterBlock_tail _ _ (by rw [hfl, Nat.min_eq_right hend]) T hT]
       simp only []
       have : 1 ≤ fp := by
-        have : 1 ≤ (inBlock strict line block L r0 rs fw cur).length := by
+        have : 1 ≤ (inBlock strict line block L r0 rs fw cur T).length := by
           simp only [inBlock, lineText, List.length_append, List.length_cons, List.length_nil]
           omega
         omega
       obtain ⟨f, rfl⟩ : ∃ f, fp = f + 1 := ⟨fp - 1, by omega⟩
-      rw [blocks]
-      simp [pure, Except.pure, take_all L _ hlen (cur + line) hend]
+      rw [blocks_stop _ _ (by rw [hfl, Nat.min_eq_right hend]), take_all L _ hlen (cur + line) hend]
     · have hlt : cur + line < L := by omega
       obtain ⟨fw', rfl⟩ : ∃ f, fw = f + 1 := ⟨fw - 1, by omega⟩
-      rw [blocksW_step strict line block L r0 rs h0.len fw' (cur + line) (by omega) hlt]
+      have e2 : blocksW strict line block L (r0 :: rs) (fw' + 1) (cur + line) ++ T =
+          NL :: (List.replicate (preLen strict + 1) SP ++ lineText block (seg line (cur + line) r0) ++
+            (rs.flatMap (rowLine strict false line block (cur + line)) ++
+              (blocksW strict line block L (r0 :: rs) fw' (cur + line + line) ++ T))) := by
+        rw [blocksW_step strict line block L r0 rs h0.len fw' (cur + line) (by omega) hlt]
+        simp [List.append_assoc]
+      rw [e2]
       rw [afterBlock_more block hb _ _ (preLen strict) _ (seg_ne line _ hl r0 (by rw [h0.len]; exact hlt))
         (seg_res line _ r0 h0.res)]
       simp only []
       apply ih (cur + line) fw' (by omega) hlt (by omega)
-      have e : inBlock strict line block L r0 rs (fw' + 1) cur =
+      have e : inBlock strict line block L r0 rs (fw' + 1) cur T =
           lineText block (seg line cur r0) ++ (rs.flatMap (rowLine strict false line block cur) ++
-            NL :: (List.replicate (preLen strict + 1) SP ++ inBlock strict line block L r0 rs fw' (cur + line))) := by
+            NL :: (List.replicate (preLen strict + 1) SP ++ inBlock strict line block L r0 rs fw' (cur + line) T)) := by
         unfold inBlock
-        rw [blocksW_step strict line block L r0 rs h0.len fw' (cur + line) (by omega) hlt]
+        rw [e2]
         simp [List.append_assoc]
       rw [e] at hfp
       simp only [List.length_append, List.length_cons, List.length_replicate] at hfp
